@@ -470,6 +470,18 @@ func cp(b []byte) []byte { return append([]byte{}, b...) }
 // RunPaths: every encode path and every decode path on one value.
 func RunPaths(t *core.T) {
 	s := t.Src
+	// package-level configuration is part of the configuration space: it must not leak into
+	// anything but the defaults of encoders created afterwards
+	savedWO, savedEO, savedES := wkb.DefaultByteOrder, ewkb.DefaultByteOrder, ewkb.DefaultSRID
+	defer func() { wkb.DefaultByteOrder, ewkb.DefaultByteOrder, ewkb.DefaultSRID = savedWO, savedEO, savedES }()
+	if s.Chance(1, 4, "globals") {
+		wkb.DefaultByteOrder = orders[s.Intn(2, "gwo")]
+		ewkb.DefaultByteOrder = orders[s.Intn(2, "geo")]
+		if s.Bool("gsrid") {
+			ewkb.DefaultSRID = drawSRID(s)
+		}
+		t.Logf("package defaults: wkb %v, ewkb %v, srid %d", wkb.DefaultByteOrder, ewkb.DefaultByteOrder, ewkb.DefaultSRID)
+	}
 	opts := gen.DefaultOpts()
 	var g orb.Geometry
 	if s.Chance(1, 60, "big") {
@@ -842,12 +854,17 @@ func scannerReuse(t *core.T, first orb.Geometry) {
 	dst := m.NewDest(d)
 	sc := newScanner(kind, dst)
 	api := []string{"wkb.Scanner", "ewkb.Scanner"}[kind] + "(reused," + m.DestNames[d] + ")"
+	srids := []int{0, 0}
+	srids[s.Intn(2, "which-has-srid")] = drawSRID(s) // one row carries an SRID, the other does not
+	if s.Bool("both") {
+		srids[0], srids[1] = drawSRID(s), drawSRID(s)
+	}
 	for i, g := range []orb.Geometry{first, second} {
 		norm, ok := m.Normalise(g)
 		if !ok {
 			return
 		}
-		data, err := ewkb.Marshal(g, 0)
+		data, err := ewkb.Marshal(g, srids[i])
 		if err != nil || data == nil {
 			return
 		}
@@ -857,8 +874,12 @@ func scannerReuse(t *core.T, first orb.Geometry) {
 			return
 		}
 		want, wrongKind := m.Coerce(d, norm)
-		sg, _, _ := scanned(sc)
-		t.Logf("%s row %d %s -> %s err=%v", api, i, gen.Describe(norm), gen.Describe(sg), serr)
+		sg, ssrid, _ := scanned(sc)
+		t.Logf("%s row %d %s srid %d -> %s srid %d err=%v", api, i, gen.Describe(norm), srids[i], gen.Describe(sg), ssrid, serr)
+		if !wrongKind && serr == nil && kind == 1 && ssrid != srids[i] {
+			t.Violate("scan-srid", api, "", "row %d of a reused scanner: the row carries srid %d, scanner.SRID is %d", i, srids[i], ssrid)
+			return
+		}
 		if wrongKind {
 			if !errors.Is(serr, wkb.ErrIncorrectGeometry) && !errors.Is(serr, ewkb.ErrIncorrectGeometry) {
 				t.Violate("coercion-error", api, "", "row %d: scanning %s into %s must fail with the incorrect-geometry error, got (%s, %v)", i, gen.Describe(norm), m.DestNames[d], gen.Describe(sg), serr)
